@@ -1,4 +1,5 @@
-import Tmv.Lemmas.WalGroup
+import Tmv.Lemmas.WalHistory
+import Tmv.Lemmas.WalReader
 /-! # C15 — The consensus write-ahead log returns what was durably written, in order
 
 Property theorems only. The model (`Tmv.Wal`, files `Model/Wal.lean`, `Model/Group.lean`) is the
@@ -61,15 +62,6 @@ theorem repair_sound (P : Params) (G : Good P) (ds : List Bytes) (hv : ∀ d ∈
 
 /-! ## durability across crash, reopen and recovery -/
 
-theorem take_prefix_take {α : Type} (l : List α) {m n : Nat} (h : m ≤ n) : l.take m <+: l.take n := by
-  have : l.take m = (l.take n).take m := by rw [List.take_take, Nat.min_eq_left h]
-  rw [this]; exact List.take_prefix _ _
-
-/-- `whole P hs g.synced` records of the head are on stable storage (their frames end at or before
-the fsync watermark); all records of rotated files are. -/
-def durableHead (P : Params) (g : Group) (hs : List Bytes) : List Bytes :=
-  hs.take (whole P hs g.synced)
-
 /-- One crash/restart cycle. Before: rotated files hold whole records, `hs` are the records
 handed to the head (file + write buffer). The process dies (`crash`, any cut of the unsynced
 tail, also inside an unfinished `FlushAndSync`), the WAL is reopened and started, and the
@@ -88,110 +80,8 @@ theorem durable_returned (P : Params) (G : Good P) (S : Nat) (g : Group) (hf : F
     (hok : RecoveredOK res) :
     (∀ j, fileAt g' j = fileAt g j) ∧ g'.buf = [] ∧
       ((∃ hw', (∀ d ∈ hw', ValidRec P d) ∧ g'.head = frames P hw' ∧
-          durableHead P g hs <+: hw' ∧ (hw' <+: hs ∨ hw' = [e0])) ∨ Collision P) := by
-  obtain ⟨k, t, hk1, hk2, hrep, hshape⟩ := crash_rep P G g hs hv hc cut
-  -- the reopened group
-  have hgo_head : (openGroup (crash g cut) hl tl).head = (crash g cut).head := rfl
-  have hgo_buf : (openGroup (crash g cut) hl tl).buf = [] := rfl
-  have hgo_files : (openGroup (crash g cut) hl tl).files = g.files := rfl
-  -- the torn record, if any
-  have hd0 : t = [] ∨ (ValidRec P ((hs[k]?).getD []) ∧ (t.length) < (frame P ((hs[k]?).getD [])).length ∧
-      t = (frame P ((hs[k]?).getD [])).take t.length) := by
-    rcases hshape with h0 | ⟨d, m, hd, hm, ht⟩
-    · exact Or.inl h0
-    · right
-      rw [hd]
-      simp only [Option.getD_some]
-      have hl : t.length = m := by rw [ht]; simp [List.length_take]; omega
-      exact ⟨hv d (List.mem_of_getElem? hd), by omega, by rw [hl]; exact ht⟩
-  -- OnStart: writes the height-0 marker only into an empty head
-  have hstart : ∃ hw2 t2 g2, (onStart P S (openGroup (crash g cut) hl tl) e0).1 = g2 ∧
-      HeadRep P g2 hw2 t2 ∧ g2.buf = [] ∧ g2.files = g.files ∧
-      ((hw2 = hs.take k ∧ t2 = t) ∨ (hs.take k = [] ∧ t = [] ∧ hw2 = [e0] ∧ t2 = [])) := by
-    by_cases h0 : (openGroup (crash g cut) hl tl).head.length = 0
-    · have hnil : (crash g cut).head = [] := by
-        rw [hgo_head] at h0; exact List.length_eq_zero_iff.mp h0
-      have hboth : frames P (hs.take k) = [] ∧ t = [] := by
-        have := hrep.eq; rw [hnil] at this
-        exact List.append_eq_nil_iff.mp this.symm
-      have hwnil : hs.take k = [] := by
-        cases hq : hs.take k with
-        | nil => rfl
-        | cons a b =>
-          have h8 := hboth.1
-          rw [hq, frames_cons] at h8
-          have := congrArg List.length h8
-          simp [frame_length P G] at this
-      obtain ⟨hw3, h3head, h3buf, h3files, _, _, h3shape, _⟩ :=
-        onStart_rep P S (openGroup (crash g cut) hl tl) e0 he [] (by rw [hgo_head, hnil]; rfl) hgo_buf G
-      have hw3e : hw3 = [e0] := by
-        rcases h3shape with h | ⟨_, h⟩
-        · exfalso
-          unfold onStart at h3head
-          simp only [h0, if_true] at h3head
-          subst h
-          unfold writeSync at h3head
-          cases hwr : write P S (openGroup (crash g cut) hl tl) e0 with
-          | none =>
-            unfold write at hwr
-            rw [encode_valid P e0 he.2.1] at hwr
-            simp at hwr
-          | some g1 =>
-            rw [hwr] at h3head
-            obtain ⟨h1, _⟩ := write_concat P S _ g1 e0 he.2.1 hwr
-            simp only [Option.map_some] at h3head
-            have : g1.head ++ g1.buf = [] := h3head
-            rw [h1] at this
-            have := congrArg List.length this
-            simp [frame_length P G] at this
-        · exact h
-      subst hw3e
-      refine ⟨[e0], [], _, rfl, ⟨?_, by rw [h3head]; simp, Or.inl rfl⟩, h3buf, h3files.trans hgo_files,
-        Or.inr ⟨hwnil, hboth.2, rfl, rfl⟩⟩
-      intro d hd; simp at hd; subst hd; exact he
-    · refine ⟨hs.take k, t, _, rfl, ?_, ?_, ?_, Or.inl ⟨rfl, rfl⟩⟩
-      · unfold onStart; simp only [h0, if_false]
-        exact ⟨hrep.valid, hrep.eq, hrep.torn⟩
-      · unfold onStart; simp only [h0, if_false]; rfl
-      · unfold onStart; simp only [h0, if_false]; rfl
-  obtain ⟨hw2, t2, g2, hg2, hr2, hb2, hfiles2, hcase⟩ := hstart
-  rw [hg2] at hrec
-  have hf2 : FilesOK P g2 := by
-    intro j; rw [fileAt_congr hfiles2 j]; exact hf j
-  have hd02 : t2 = [] ∨ (ValidRec P ((hs[k]?).getD []) ∧ (t.length) < (frame P ((hs[k]?).getD [])).length ∧
-      t2 = (frame P ((hs[k]?).getD [])).take t.length) := by
-    rcases hcase with ⟨_, rfl⟩ | ⟨_, _, _, rfl⟩
-    · exact hd0
-    · exact Or.inl rfl
-  obtain ⟨c1, c2, c3⟩ := recover_clean P G S g2 h e0 he hf2 hw2 t2 hr2 _ _ hd02 hb2 dhl dtl res g' hrec hok
-  refine ⟨fun j => (c1 j).trans (fileAt_congr hfiles2 j), c2, ?_⟩
-  rcases c3 with ⟨hw', hv', hhead', hafter⟩ | hcol
-  · left
-    refine ⟨hw', hv', hhead', ?_⟩
-    have hdur : durableHead P g hs <+: hs.take k := by
-      unfold durableHead
-      exact take_prefix_take hs hk1
-    rcases hcase with ⟨rfl, rfl⟩ | ⟨hnil, htnil, rfl, rfl⟩
-    · rcases hafter with rfl | ⟨htn, rfl⟩ | ⟨hnil, rfl⟩
-      · exact ⟨hdur, Or.inl (List.take_prefix _ _)⟩
-      · -- the torn record was restored by zero-filling: it is the next written record
-        rcases hshape with h0 | ⟨d, m, hd, hm, ht⟩
-        · exact absurd h0 htn
-        · rw [hd]
-          simp only [Option.getD_some]
-          have : hs.take k ++ [d] = hs.take (k + 1) := by
-            rw [List.take_add_one, hd]; simp
-          rw [this]
-          exact ⟨hdur.trans (take_prefix_take hs (Nat.le_succ k)),
-            Or.inl (List.take_prefix _ _)⟩
-      · rw [hnil] at hdur
-        exact ⟨hdur.trans (List.nil_prefix), Or.inr rfl⟩
-    · rw [hnil] at hdur
-      rcases hafter with rfl | ⟨htn, _⟩ | ⟨hx, _⟩
-      · exact ⟨hdur.trans (List.nil_prefix), Or.inr rfl⟩
-      · exact absurd rfl htn
-      · simp at hx
-  · right; exact hcol
+          durableHead P g hs <+: hw' ∧ (hw' <+: hs ∨ hw' = [e0])) ∨ Collision P) :=
+  cycle_clean P G S g hf hs hv hc cut hl tl h e0 he res g' dhl dtl hrec hok
 
 /-- A write of a valid record between two cycles appends its frame to what was handed to the head;
 rotated files, the fsync watermark and the indices do not change. -/
@@ -218,6 +108,42 @@ theorem hist_rotate (g : Group) :
   simp only [flushAndSync]
   rw [lookup_setFile]
   split <;> simp
+
+/-- **History theorem** (`Step`, `Steps`, `HInv`, `dlog`/`wlog` in Lemmas/WalHistory.lean). Let a
+group satisfy the invariant (`HInv`: rotated files hold whole valid records, head ++ buffer are the
+frames of the records handed to it, indices cover the files). Run ANY history `ops1` of writes,
+synced writes, syncs, rotations (`checkHeadSizeLimit`), prunings (`checkTotalSizeLimit`), readers
+and searches, and crash/reopen/recover cycles (every cut of the unsynced tail, also inside an
+unfinished `FlushAndSync`; any limits at reopen; the catch-up loop reported success), reaching
+`g1`; then ANY further history `ops2`, reaching `g'`. Then a reader over the whole group at the end
+returns `R` with: the durable log of `g1` (`dlog`: everything a successful fsync had covered by
+then — rotated files and the head up to the watermark) is `dropped ++ kept`, where `dropped` is
+empty unless `ops2` contains a pruning (and then consists of whole oldest files,
+`prune_whole_oldest_files_only`), and `kept` is a prefix of `R` — every acknowledged record not in
+a pruned file is returned, in write order; and `R` is a sublist of what the log held at the start
+followed by what the operations wrote, in that order — nothing unwritten is returned. Or a
+checksum collision is exhibited (the repair's zero-filling). -/
+theorem durable_returned_history (P : Params) (G : Good P) (S dhl dtl k : Nat) (ops1 ops2 : List HOp)
+    (g g1 g' : Group) (hs : List Bytes) (hi : HInv P g hs)
+    (st1 : Steps P S dhl dtl k g ops1 g1) (st2 : Steps P S dhl dtl k g1 ops2 g') :
+    (∃ dropped kept R e, dlog P g1 = dropped ++ kept ∧ (ops2.any HOp.isPrune = false → dropped = []) ∧
+        (readAll P g').1 = (R, e) ∧ e.isMsg = false ∧ kept <+: R ∧
+        R.Sublist (wlog P g ++ (ops1 ++ ops2).flatMap HOp.recs))
+      ∨ Collision P := by
+  rcases history P G S dhl dtl k ops1 g g1 hs hi st1 with ⟨hs1, i1, _, _⟩ | hc
+  · rcases history P G S dhl dtl k ops2 g1 g' hs1 i1 st2 with ⟨hs2, i2, ⟨dr, kept, new, e1, e2, e3⟩, _⟩ | hc
+    · rcases history P G S dhl dtl k (ops1 ++ ops2) g g' hs hi (Steps.append st1 st2) with ⟨hs3, _, _, w3⟩ | hc
+      · obtain ⟨e, he, hr, hdr, hrw⟩ := readAll_inv P G g' hs2 i2
+        refine Or.inl ⟨dr, kept, rlog P g', e, e1, e3, hr, he, ?_, (hrw.sublist).trans w3⟩
+        exact (List.prefix_append kept new).trans (e2 ▸ hdr)
+      · exact Or.inr hc
+    · exact Or.inr hc
+  · exact Or.inr hc
+
+/-- What `dlog` means right after a successful fsync: everything written so far. -/
+theorem sync_makes_durable (P : Params) (G : Good P) (g : Group) (hs : List Bytes) (hi : HInv P g hs) :
+    dlog P (flushAndSync g) = wlog P g ∧ wlog P g = filesPart P g ++ hs :=
+  ⟨(sync_step P G g hs hi).2.1, wlog_eq P G g hs hi⟩
 
 /-- The marker-missing branch of `catchupReplay` (it writes the previous height's marker) is
 not taken by a recovery that reported a successful replay: `durable_returned` is about the state
@@ -297,6 +223,138 @@ theorem search_iff_durable_marker (P : Params) (G : Good P) (g : Group) (hf : Fi
       (∃ d ∈ logFrom P g hw g.minIndex, P.parse d = some (some h)) :=
   search_iff P G g hf hw t hr hmin h ign hign hinc
 
+/-- `search_iff_durable_marker` across histories: after any history (as in
+`durable_returned_history`) the search for `#ENDHEIGHT h` succeeds exactly when the marker is among
+the records a reader returns (`rlog`: rotated files the group still has + whole records of the head
+file); in particular every marker of the durable log — fsynced and not pruned — is found.
+Hypotheses as in `search_iff_durable_marker`: tolerant search or nothing in the write buffer, and
+heights written in increasing order. -/
+theorem search_iff_after_history (P : Params) (G : Good P) (S dhl dtl k : Nat) (ops : List HOp)
+    (g g' : Group) (hs : List Bytes) (hi : HInv P g hs) (st : Steps P S dhl dtl k g ops g')
+    (h : Int) (ign : Bool) (hign : ign = true ∨ g'.buf = [])
+    (hinc : ∀ pre m suf, rlog P g' = pre ++ m :: suf → P.parse m = some (some h) → MarkersAbove P h suf) :
+    (((∃ rest, (search P g' h ign).1 = .found rest) ↔ (∃ d ∈ rlog P g', P.parse d = some (some h))) ∧
+      ((∃ d ∈ dlog P g', P.parse d = some (some h)) → ∃ rest, (search P g' h ign).1 = .found rest))
+      ∨ Collision P := by
+  rcases history P G S dhl dtl k ops g g' hs hi st with ⟨hs', i', _, _⟩ | hc
+  · left
+    obtain ⟨t, hrep, hbuf⟩ := headRep_inv P g' hs' i'
+    have hlog : logFrom P g' (hs'.take (whole P hs' g'.head.length)) g'.minIndex = rlog P g' := by
+      rw [rlog_eq P G g' hs' i']; rfl
+    have hign' : ign = true ∨ t = [] := hign.imp id hbuf
+    have key := search_iff P G g' i'.filesOK _ t hrep i'.idx.2 h ign hign' (by rw [hlog]; exact hinc)
+    rw [hlog] at key
+    refine ⟨key, ?_⟩
+    rintro ⟨d, hd, hp⟩
+    obtain ⟨_, _, _, hpre, _⟩ := readAll_inv P G g' hs' i'
+    exact key.mpr ⟨d, hpre.subset hd, hp⟩
+  · exact Or.inr hc
+
+/-! ## readers that stay open -/
+
+/-- **An open reader returns exactly the records from its position on, in order.** The reader model
+(`Reader`: file index, offset, pinned content of a file unlinked under it; `readerRead` mirrors
+`GroupReader.Read` with the next file chosen under the group lock from the live `maxIndex`;
+`readerDecode`/`readerNext` mirror `WALDecoder.Decode` on it). If the bytes ahead of the cursor
+are the frames of the valid records `ds` followed by a torn tail, then `rnext n` returns the first
+`n` of them (all of them, and why it stopped, when `n` is larger), the cursor is then in front of
+the remaining ones, stays inside its file, and the disk is unchanged but for empty files created. -/
+theorem open_reader_sound (P : Params) (G : Good P) (t : Bytes) (ht : TornTail P t) (n : Nat)
+    (ds : List Bytes) (g : Group) (r : Reader) (hok : ReaderOK g r) (hv : ∀ d ∈ ds, ValidRec P d)
+    (hs : readerStream g r = frames P ds ++ t) :
+    ∃ e r' g', readerNext P n g r = (ds.take n, e, r', g') ∧ SameDisk g g' ∧ ReaderOK g' r' ∧
+      ((n ≤ ds.length ∧ e = none ∧ readerStream g' r' = frames P (ds.drop n) ++ t) ∨
+       (ds.length < n ∧ e = some (decodeG P t).1 ∧ readerStream g' r' = [])) := by
+  obtain ⟨e, r', g', h1, h2, h3, h4⟩ := readerNext_frames P G t ht n ds g r hok.1 hv hs
+  have h5 := readerNext_ok P n g r hok.2
+  rw [h1] at h5
+  exact ⟨e, r', g', h1, h2, ⟨h3, h5⟩, h4⟩
+
+/-- A reader opened at index `i` (`NewReader(i)`) has ahead of it the records of the rotated files
+`i …` and the whole records of the head, in order (`logFrom`), then the head's torn tail. -/
+theorem open_reader_start (P : Params) (G : Good P) (g : Group) (hf : FilesOK P g) (hw : List Bytes)
+    (t : Bytes) (hr : HeadRep P g hw t) (i : Nat) (hi : i ≤ g.maxIndex) :
+    readerStream (readerOpen g i) { idx := i } = frames P (logFrom P g hw i) ++ t ∧
+      (∀ d ∈ logFrom P g hw i, ValidRec P d) ∧ ReaderOK (readerOpen g i) { idx := i } := by
+  have sd := sameDisk_readerOpen g i
+  have hs := streamFrom_rep P G (readerOpen g i) (sd.filesOK hf) hw t (sd.headRep hr) i
+  refine ⟨?_, ?_, ⟨by rw [sd.maxIndex]; exact hi, Nat.zero_le _⟩⟩
+  · rw [readerStream_fresh _ i (by rw [sd.maxIndex]; exact hi), hs.1]
+    unfold logFrom
+    rw [sd.fileRecs_eq, sd.maxIndex]
+  · intro d hd
+    apply hs.2
+    unfold logFrom at hd
+    rw [sd.fileRecs_eq, sd.maxIndex]
+    exact hd
+
+/-- Across the writer's operations an open reader loses nothing and sees nothing out of order:
+what was ahead of it stays ahead, and what the operation put into the head file is appended —
+for a write that flushed part of the buffer or a `FlushAndSync` (the head file grew by `x`) … -/
+theorem open_reader_across_head_growth (g g' : Group) (r : Reader) (x : Bytes)
+    (hf : g'.files = g.files) (hm : g'.maxIndex = g.maxIndex) (hh : g'.head = g.head ++ x)
+    (hok : ReaderOK g r) (hp : r.idx = g.maxIndex → r.pinned = none) :
+    readerStream g' r = readerStream g r ++ x := readerStream_grow g g' r x hf hm hh hok hp
+
+/-- … and for a rotation (the reader's index keeps naming the same file, which is now a rotated
+one; the next file is looked up with the new `maxIndex`). -/
+theorem open_reader_across_rotate (g : Group) (r : Reader) (hok : ReaderOK g r)
+    (hp : r.idx = g.maxIndex → r.pinned = none) :
+    readerStream (rotateFile g) r = readerStream g r ++ g.buf := readerStream_rotate g r hok hp
+
+/-- Under pruning (the stated relaxation): the reader keeps reading the file it is in even if that
+file was removed; each file ahead of it is either unchanged or, if removed, gone as a whole. -/
+theorem open_reader_under_prune (k : Nat) (g g' : Group) (rem : List Nat) (r : Reader)
+    (hr : checkTotalSizeLimit k g = (g', rem)) :
+    (∀ p ∈ pinReaders g rem [("r", r)], readerContent g' p.2 = readerContent g r ∧ p.2.off = r.off ∧
+      p.2.idx = r.idx) ∧
+    (∀ j, fileAt g' j = if j ∈ rem then [] else fileAt g j) ∧ g'.head = g.head ∧
+      g'.maxIndex = g.maxIndex := reader_prune k g g' rem r hr
+
+/-! ## single-byte corruption -/
+
+/-- Hypothesis `DetectsByteFlips P`: changing one byte of a payload changes its checksum. It is
+true of CRC-32C (every error burst of at most 32 bits is detected), hence of the driver's
+instance; it is not proved here and is used by `flip_detected` only.
+
+`flip_detected`: one byte of one record's frame is changed (`i` = offset in the frame), records
+`pre` before and `post` after it are intact.
+* checksum field (`i < 4`) or payload (`8 ≤ i`): a reader returns exactly `pre` and stops with
+  "checksums do not match" at the damaged record; the decoder is left exactly at the next record
+  (so `SearchForEndHeight` with `IgnoreDataCorruptionErrors` goes on with `post`);
+* length field (`4 ≤ i < 8`): the reader returns exactly `pre` and stops at the damaged record
+  (too big / short read / checksum / decoder), unless the bytes the wrong length selects carry
+  the written record's checksum — two byte strings of different length with the same checksum.
+In no case is something returned that was not written, short of such a collision. -/
+theorem flip_detected (P : Params) (G : Good P) (hdet : DetectsByteFlips P)
+    (pre post : List Bytes) (d : Bytes) (hpre : ∀ x ∈ pre, ValidRec P x) (hd : ValidRec P d)
+    (i : Nat) (b : UInt8) (hne : (frame P d).set i b ≠ frame P d) :
+    ((i < 4 ∨ 8 ≤ i) →
+      readAllG P (frames P pre ++ ((frame P d).set i b ++ frames P post)) = (pre, .corrupt .crcMismatch) ∧
+      decodeG P ((frame P d).set i b ++ frames P post) = (.corrupt .crcMismatch, frames P post)) ∧
+    ((4 ≤ i ∧ i < 8) →
+      (readAllG P (frames P pre ++ ((frame P d).set i b ++ frames P post))).1 = pre ∨
+        ∃ x, x.length ≠ d.length ∧ P.crc x = P.crc d) :=
+  flip_detected_stream P G hdet pre post d hpre hd i b hne
+
+/-- per region: payload, checksum field, length field -/
+theorem flip_payload_rejected (P : Params) (G : Good P) (hdet : DetectsByteFlips P) (d rest : Bytes)
+    (hv : ValidRec P d) (i : Nat) (b : UInt8) (hne : d.set i b ≠ d) :
+    decodeG P (P.crc d ++ (be32 d.length ++ (d.set i b ++ rest))) = (.corrupt .crcMismatch, rest) :=
+  flip_payload P G hdet d rest hv i b hne
+
+theorem flip_crc_rejected (P : Params) (G : Good P) (d rest : Bytes) (hv : ValidRec P d) (i : Nat)
+    (b : UInt8) (hne : (P.crc d).set i b ≠ P.crc d) :
+    decodeG P ((P.crc d).set i b ++ (be32 d.length ++ (d ++ rest))) = (.corrupt .crcMismatch, rest) :=
+  flip_crc P G d rest hv i b hne
+
+theorem flip_length_rejected_or_collision (P : Params) (G : Good P) (d rest : Bytes) (i : Nat)
+    (b : UInt8) (hne : (be32 d.length).set i b ≠ be32 d.length) :
+    (decodeG P (P.crc d ++ ((be32 d.length).set i b ++ (d ++ rest)))).1.isMsg = false ∨
+      ∃ x, (decodeG P (P.crc d ++ ((be32 d.length).set i b ++ (d ++ rest)))).1 = .msg x ∧
+        x.length ≠ d.length ∧ P.crc x = P.crc d :=
+  flip_length P G d rest i b hne
+
 /-! ## the hypotheses are satisfiable (non-vacuity) -/
 
 /-- a toy instance: checksum = length, a message = any non-empty payload, `[k]` with k<10 = marker k -/
@@ -332,5 +390,62 @@ example : (recover exP 40960 0 0 (onStart exP 40960 (openGroup (crash exG 1) 0 0
     = frames exP [[0], [1], [7, 7, 0]] := by decide
 /-- the search finds the durable marker 1 and not the never written 2 -/
 example : (∃ rest, (search exP exG 1 true).1 = .found rest) := ⟨_, rfl⟩
+
+theorem ex_sum_set (d : Bytes) : ∀ (i : Nat) (b : UInt8) (hi : i < d.length),
+    ((d.set i b).map UInt8.toNat).sum + (d[i]).toNat = (d.map UInt8.toNat).sum + b.toNat := by
+  induction d with
+  | nil => intro i b hi; simp at hi
+  | cons a t ih =>
+    intro i b hi
+    cases i with
+    | zero => simp; omega
+    | succ j =>
+      have := ih j b (by simpa using hi)
+      simp only [List.set_cons_succ, List.map_cons, List.sum_cons, List.getElem_cons_succ]
+      omega
+
+/-- a toy checksum that detects single-byte changes: the byte sum modulo 256 -/
+def exQ : Params := { exP with crc := fun d => be32 ((d.map UInt8.toNat).sum % 256) }
+
+example : DetectsByteFlips exQ := by
+  intro d i b hne hcrc
+  have hi : i < d.length := by
+    rcases Nat.lt_or_ge i d.length with h | h
+    · exact h
+    · exact absurd (List.set_eq_of_length_le h) hne
+  have hb : b ≠ d[i] := by
+    intro e; apply hne; rw [e]; exact List.set_getElem_self hi
+  have hs := ex_sum_set d i b hi
+  simp only [List.map_set] at hs
+  have h4 := congrArg (fun l => (l.getD 3 0).toNat) hcrc
+  simp [exQ, be32, List.getD] at h4
+  have h1 := b.toNat_lt
+  have h2 := (d[i]).toNat_lt
+  apply hb
+  apply UInt8.toNat_inj.mp
+  omega
+
+example : HInv exP exG [[0], [1], [7, 7, 0]] :=
+  ⟨fun _ => ⟨[], by simp, rfl⟩, ⟨fun j hj => absurd rfl hj, Nat.le_refl _⟩,
+   by intro d hd; simp at hd; rcases hd with rfl | rfl | rfl <;> (unfold ValidRec; decide),
+   by simp [exG], by decide⟩
+
+/-- an open reader on the toy instance: in front of three records, it returns the first two -/
+example : ReaderOK exG { idx := 0 } ∧ readerStream exG { idx := 0 } = frames exP [[0], [1], [7, 7, 0]] ++ [] :=
+  ⟨⟨by decide, by decide⟩, by decide⟩
+example : (readerNext exP 2 exG { idx := 0 }).1 = [[0], [1]] := by decide
+
+/-- a history on the toy instance: a synced write, then a crash that tears nothing durable, the
+reopening and a successful catch-up -/
+example : ∃ g', Steps exP 40960 0 0 4 exG [.writeSync [8, 8], .restart 5 0 0 2 exE0] g' := by
+  have hv : ValidRec exP [8, 8] := by unfold ValidRec; decide
+  have he : ValidRec exP exE0 := by unfold ValidRec; decide
+  refine ⟨_, Steps.cons (Step.writeSync (g' := ((writeSync exP 40960 exG [8, 8]).getD exG)) hv rfl)
+    (Steps.cons (Step.restart (res := (recover exP 40960 0 0 (onStart exP 40960 (openGroup (crash
+      ((writeSync exP 40960 exG [8, 8]).getD exG) 5) 0 0) exE0).1 2 exE0).1) he rfl ?_) Steps.nil)⟩
+  have : (recover exP 40960 0 0 (onStart exP 40960 (openGroup (crash
+      ((writeSync exP 40960 exG [8, 8]).getD exG) 5) 0 0) exE0).1 2 exE0).1 = .first (.ok [[7, 7, 0], [8, 8]]) := rfl
+  rw [this]; trivial
+
 
 end Tmv.Props.C15
